@@ -35,7 +35,7 @@ Definition inv (c : uctx) : Prop := uoff c <= len (ubuf c).
 Lemma set_off_same c : set_off c (uoff c) = c.
 Proof. destruct c; reflexivity. Qed.
 
-Lemma u_align_ok a c c1 : u_align a c = Ok c1 ->
+Lemma u_align_result a c c1 : u_align a c = Ok c1 ->
   exists p, c1 = set_off c (uoff c + p) /\ p = pad_amount a (uoff c) /\ uoff c + p <= len (ubuf c).
 Proof.
   unfold u_align, align_offset. destruct (N.ltb_spec (len (ubuf c)) (uoff c)) as [H|H]; [discriminate|]. cbv zeta.
@@ -45,7 +45,7 @@ Proof.
   intros E. injection E as <-. eauto.
 Qed.
 Lemma u_align_inv a c c1 : u_align a c = Ok c1 -> inv c1.
-Proof. intros H. apply u_align_ok in H. destruct H as (p & -> & _ & Hle). exact Hle. Qed.
+Proof. intros H. apply u_align_result in H. destruct H as (p & -> & _ & Hle). exact Hle. Qed.
 
 Lemma slice_0 buf o : slice buf o 0 = [].
 Proof. reflexivity. Qed.
@@ -64,7 +64,7 @@ Proof. intros H. apply u_align_noop; [exact H|apply pad_amount_1]. Qed.
 
 Lemma u_align_idem a c c1 : 0 < a -> u_align a c = Ok c1 -> u_align a c1 = Ok c1.
 Proof.
-  intros Ha H. pose proof (u_align_inv _ _ _ H) as Hi. apply u_align_ok in H. destruct H as (p & -> & -> & Hle).
+  intros Ha H. pose proof (u_align_inv _ _ _ H) as Hi. apply u_align_result in H. destruct H as (p & -> & -> & Hle).
   apply u_align_noop; [exact Hi|]. cbn [set_off uoff].
   rewrite !pad_amount_padlen by exact Ha. apply padlen_0; [exact Ha|]. apply padlen_aligned. exact Ha.
 Qed.
@@ -210,7 +210,7 @@ Proof.
 Qed.
 
 Lemma u_align_fields a c c1 : u_align a c = Ok c1 -> ubuf c1 = ubuf c /\ unfds c1 = unfds c /\ udepth c1 = udepth c.
-Proof. intros H. apply u_align_ok in H. destruct H as (p & -> & _). auto. Qed.
+Proof. intros H. apply u_align_result in H. destruct H as (p & -> & _). auto. Qed.
 
 Lemma u_base_selfalign be b c : inv c -> (do c1 <- u_align (base_align b) c; u_base be b c1) = u_base be b c.
 Proof.
